@@ -237,6 +237,13 @@ def blockzero_class(pre, msgs, B, trailing_newline=True):
         # block zero (or ends at the end of the file without a newline); calibrated on the unchanged tree: two short lines
         # followed by a 70 kB line are admitted, one short line followed by it is not
         lines = block0.count(b"\n") + (1 if not block0.endswith(b"\n") else 0)
+        # the sysline pass only rejects when not even the first message is found (`found == 0`), and the first message is found
+        # when the head line of the second one lies wholly inside block zero (calibrated: "msg, msg head, 70 kB continuation
+        # line" is admitted, "msg of two lines, msg with a 70 kB head line" is not)
+        if lines >= 3 and len(offs) > 1:
+            e = data.find(b"\n", offs[1])
+            if (e != -1 and e < len(block0)) or (e == -1 and len(data) <= len(block0)):
+                return None
         if lines < 3 or complete < 2:
             return "fewer-than-min-lines-or-syslines-in-block-zero-of-8096+"
     return None
